@@ -163,6 +163,8 @@ class _ForkWorker:
                     if len(hdr) < 8:
                         break
                     n = struct.unpack("<Q", hdr)[0]
+                    if n == 0:
+                        break      # explicit quit (EOF alone is not reliable: sibling workers inherit copies of the pipe ends)
                     payload = fin.read(n)
                     try:
                         runner, arg = pickle.loads(payload)
@@ -195,6 +197,11 @@ class _ForkWorker:
         return pickle.loads(self.fin.read(n))
 
     def close(self):
+        try:
+            self.fout.write(struct.pack("<Q", 0))
+            self.fout.flush()
+        except (OSError, ValueError):
+            pass
         try:
             self.fout.close()
             self.fin.close()
